@@ -45,6 +45,11 @@ def run(rep):
                         "Go's runtime re-randomises map iteration order on every range statement (so repeated runs sample the permutations the theorems quantify over)",
                         "packages on which goderive does not terminate or fails are compared by exit status and normalised message only (crashes and hangs are C09's, compile failures C01's)"]
     facts = runs.facts_and_proof(rep, "C08")
+    # the order in which the packages of an invocation are generated (sort by path, then imported-first): model
+    # G/Order.lean (Props/C08o: permutation, imported first, independent of the listing order) against the real
+    # importedFirst through the verif hook, on exhaustive small and random import graphs
+    from vlib import order
+    order.run(rep)
     rep.cov["traces_validated_against_impl"] = runs.import_tie(rep, (150 if rep.tier == "quick" else 1200))
     rep.cov["facts"] = {k: facts.get(k) for k in ("mapRangeSites", "mutablePackageVars", "packageVars")}
     _, binp = common.build_goderive()
